@@ -76,6 +76,17 @@ def replay_history(w, h, rng, from_file=False):
             want = next(it['v'] for it in step['snap']['vals'] if it['c'] == c_last)
             if not same_small(got, want):
                 return False, f'round {rnd + 1}: get_cell with the very Cell object that was passed to set_cells ({c_last} = {v_last}) -> {got}, expected {want}', obs
+        if rng.random() < 0.2:
+            # a blank that was READ is written back as an override of that same blank cell: the workbook stays what it was
+            blank = ex.get_cell(xc.mk_cell(pos['S1A2'], None, 0)).value if 'S1A2' not in {c for st in h[:rnd + 1] for c, _ in st['batch']} else None
+            if blank is not None:
+                try:
+                    ex.set_cells([xc.mk_cell(pos['S1A2'], blank, rng.randint(0, 3))])
+                    ex.set_cells([xc.mk_cell(pos['S1A2'], None, 0)])
+                except repo.E2PyclException:
+                    raise
+                except Exception as e:  # noqa
+                    return False, f'round {rnd + 1}: writing a blank that was read back ({blank!r}) into its own cell raises {type(e).__name__}: {e}', obs
         if rng.random() < 0.3:
             cells[0].value = 'changed by the caller afterwards'          # the value supplied AT the call is the override
         if rng.random() < 0.25 and not xc.rejected_set(ex, pos, rng):          # Executor!RejectedSet: changes nothing
